@@ -49,8 +49,15 @@ func (m *Machine) tryIfConvert(fr *frame, cond *Term) (ok bool) {
 	defer func() {
 		m.spec = false
 		if r := recover(); r != nil {
-			if _, isFail := r.(specFail); !isFail {
+			sf, isFail := r.(specFail)
+			if !isFail {
 				panic(r)
+			}
+			if m.trace {
+				if m.specFails == nil {
+					m.specFails = map[string]int{}
+				}
+				m.specFails[sf.why+" @ "+fr.fn.String()]++
 			}
 			// roll back effects of the attempt
 			for i := len(m.undo) - 1; i >= undoMark; i-- {
@@ -68,18 +75,69 @@ func (m *Machine) tryIfConvert(fr *frame, cond *Term) (ok bool) {
 	}()
 	st := &specState{}
 	var front []frontierEnt
-	front = append(front, m.specFrom(fr, st, blk.Succs[0], blk, cond)...)
-	front = append(front, m.specFrom(fr, st, blk.Succs[1], blk, m.f.Not(cond))...)
+	front = append(front, m.specFrom(fr, st, blk.Succs[0], blk, cond, false)...)
+	front = append(front, m.specFrom(fr, st, blk.Succs[1], blk, m.f.Not(cond), false)...)
 	if len(front) == 0 {
 		panic(specFail{"no frontier"})
 	}
-	join := front[0].blk
-	for _, e := range front {
-		if e.blk != join {
+	// nested joins: a frontier block all of whose predecessors are inside the region is entered (phis
+	// merged by guard) and executed under the disjunction of the incoming guards
+	for {
+		same := true
+		for _, e := range front {
+			if e.blk != front[0].blk {
+				same = false
+			}
+		}
+		if same {
+			break
+		}
+		var pick *ssa.BasicBlock
+		for _, e := range front {
+			n := 0
+			for _, x := range front {
+				if x.blk == e.blk {
+					n++
+				}
+			}
+			if n == len(e.blk.Preds) {
+				pick = e.blk
+				break
+			}
+		}
+		if pick == nil {
 			panic(specFail{"multiple joins"})
 		}
+		var in, rest []frontierEnt
+		for _, e := range front {
+			if e.blk == pick {
+				in = append(in, e)
+			} else {
+				rest = append(rest, e)
+			}
+		}
+		g := m.f.fls
+		for _, e := range in {
+			g = m.f.Or(g, e.guard)
+		}
+		m.mergePhis(fr, pick, in)
+		rest = append(rest, m.specFrom(fr, st, pick, in[0].pred, g, true)...)
+		front = rest
+		if len(front) == 0 {
+			panic(specFail{"no frontier"})
+		}
 	}
-	// phis at the join
+	join := front[0].blk
+	m.mergePhis(fr, join, front)
+	fr.prevBlock = front[0].pred
+	fr.block = join
+	fr.phisDone = true
+	m.ifConverted++
+	return true
+}
+
+// mergePhis assigns the phis of blk from the guarded incoming edges.
+func (m *Machine) mergePhis(fr *frame, join *ssa.BasicBlock, front []frontierEnt) {
 	var phis []*ssa.Phi
 	for _, in := range join.Instrs {
 		p, ok := in.(*ssa.Phi)
@@ -114,11 +172,6 @@ func (m *Machine) tryIfConvert(fr *frame, cond *Term) (ok bool) {
 	for pi, p := range phis {
 		fr.set(p, vals[pi])
 	}
-	fr.prevBlock = front[0].pred
-	fr.block = join
-	fr.phisDone = true
-	m.ifConverted++
-	return true
 }
 
 // mergeVal returns ite(g, a, b) for scalar terms, or a if a and b are identical; otherwise fails.
@@ -176,11 +229,11 @@ func sameValue(a, b Value) bool {
 }
 
 // specFrom executes block b (entered from pred under guard) and everything after it inside the region.
-func (m *Machine) specFrom(fr *frame, st *specState, b, pred *ssa.BasicBlock, guard *Term) []frontierEnt {
+func (m *Machine) specFrom(fr *frame, st *specState, b, pred *ssa.BasicBlock, guard *Term, entered bool) []frontierEnt {
 	if guard.IsFalse() {
 		return nil
 	}
-	if len(b.Preds) != 1 {
+	if len(b.Preds) != 1 && !entered {
 		return []frontierEnt{{b, pred, guard}}
 	}
 	st.blocks++
@@ -196,8 +249,10 @@ func (m *Machine) specFrom(fr *frame, st *specState, b, pred *ssa.BasicBlock, gu
 		switch in := in.(type) {
 		case *ssa.DebugRef:
 		case *ssa.Phi:
-			// single predecessor: phi is a copy
-			fr.set(in, fr.get(in.Edges[0]))
+			if !entered {
+				// single predecessor: phi is a copy
+				fr.set(in, fr.get(in.Edges[0]))
+			}
 		case *ssa.BinOp:
 			switch in.Op {
 			case token.QUO, token.REM:
@@ -280,7 +335,7 @@ func (m *Machine) specFrom(fr *frame, st *specState, b, pred *ssa.BasicBlock, gu
 			}
 			panic(specFail{"call"})
 		case *ssa.Jump:
-			return m.specFrom(fr, st, b.Succs[0], b, guard)
+			return m.specFrom(fr, st, b.Succs[0], b, guard, false)
 		case *ssa.If:
 			c := fr.get(in.Cond).(*Term)
 			if v, ok := m.decideByMask(c); ok {
@@ -288,12 +343,12 @@ func (m *Machine) specFrom(fr *frame, st *specState, b, pred *ssa.BasicBlock, gu
 			}
 			if c.IsConst() {
 				if c.c == 1 {
-					return m.specFrom(fr, st, b.Succs[0], b, guard)
+					return m.specFrom(fr, st, b.Succs[0], b, guard, false)
 				}
-				return m.specFrom(fr, st, b.Succs[1], b, guard)
+				return m.specFrom(fr, st, b.Succs[1], b, guard, false)
 			}
-			a := m.specFrom(fr, st, b.Succs[0], b, m.f.And(guard, c))
-			bb := m.specFrom(fr, st, b.Succs[1], b, m.f.And(guard, m.f.Not(c)))
+			a := m.specFrom(fr, st, b.Succs[0], b, m.f.And(guard, c), false)
+			bb := m.specFrom(fr, st, b.Succs[1], b, m.f.And(guard, m.f.Not(c)), false)
 			return append(a, bb...)
 		default:
 			panic(specFail{"instruction"})
